@@ -24,6 +24,7 @@ func allPropsUnsorted() []*propInfo {
 				"C07.6 (shared) AND / OR chains evaluate every term with the right short-circuit value. C14.3 / C14.6 (shared) the subscription's own expiry clock is restarted with its TTL (a subscription swept early takes its outstanding messages with it). C01.6 (shared) completed_at is always the current time; C14.1 / C15.1 (shared) a delivery's retention is the message retention and the expiry prune compares with the clock itself. NOT decided: clock arithmetic (that attempt_at/expires_at values make a message due again), database semantics, the history-level claim itself.",
 			Assumptions: []string{k1Assumption, "database executes the statements as ent renders them"},
 			Rules: []ruleFn{
+				{ID: "C04.10", Doc: "(shared: a modify-deadline in the wrong unit withholds the message far past its lease — past its retention) [dep] seconds fields are scaled by time.Second", Run: ruleC04_10},
 				{ID: "C17.5", Doc: "(shared, retention instances: an unset retention is stored as the default, not as zero — deliveries created with zero retention are expired at once and never offered) [dom] zero durations select the documented defaults", Run: ruleC17_5, Only: `retention`},
 				{ID: "C15.1", Doc: "(shared: the expiry prune removes only deliveries whose retention has lapsed) [atoms] exact selection per job; threshold", Run: ruleC15_1},
 				{ID: "C14.1", Doc: "(shared: retention of a delivery is the message retention) [dep] creation timestamps", Run: ruleC14_1},
@@ -57,6 +58,7 @@ func allPropsUnsorted() []*propInfo {
 				"C07.6 (shared) chain evaluation; C02.4 also: payload / attributes handed to the client are the stored field itself on every path (no special-cased or recomputed value). C02.4 also: every content field of the publish parameters is written on every path to the publish of each message. NOT decided: JSON value equality through jsonb/text storage, duplicates within one response (primary-key fact), histories.",
 			Assumptions: []string{k1Assumption, "protobuf/ent field names correspond one-to-one as in the generated code"},
 			Rules: []ruleFn{
+				{ID: "C12.8", Doc: "(shared: deleting or changing one subscription never reaches another whose name merely starts the same) [atoms] a resource is addressed by its whole name", Run: ruleC12_8},
 				{ID: "C17.1", Doc: "(shared, dead-letter instances: the dead-letter topic stored at creation is the one the request names, not the source topic) [dep] create mapping", Run: ruleC17_1, Only: `DeadLetter|MaxDeliveryAttempts`},
 				{ID: "C17.2", Doc: "(shared, dead-letter instances: an update that clears the dead-letter policy really removes it — forwarding that is no longer configured does not happen) [atoms] update-mask locality", Run: ruleC17_2, Only: `noop-shortcut|dead_letter_policy`},
 				{ID: "C07.6", Doc: "(shared) leaf and combinator shapes (idiom-bound)", Run: ruleC07_6},
@@ -107,6 +109,7 @@ func allPropsUnsorted() []*propInfo {
 				"C04.8 also: modify-deadline ids of a stream request go to the delay action, never to the nack queue. NOT decided: the numeric backoff formula, jitter bound and saturation; PostgreSQL row-lock semantics; 'handed out again once the deadline has passed'.",
 			Assumptions: []string{k1Assumption, "FOR UPDATE SKIP LOCKED / SQLite immediate transactions give exclusivity (database semantics)"},
 			Rules: []ruleFn{
+				{ID: "C04.10", Doc: "[dep] a request field counted in seconds becomes a duration by multiplication with time.Second", Run: ruleC04_10},
 				{ID: "C17.2", Doc: "(shared, retry_policy instances: an update of the retry policy stores the minimum and maximum the request gives, and clears the absent one) [atoms] update-mask locality", Run: ruleC17_2, Only: `retry_policy|noop-shortcut`},
 				{ID: "C04.9", Doc: "[alias] (shared) no predicate list is built by appending twice to one base slice with spare capacity", Run: ruleC04_9},
 				{ID: "C04.1", Doc: "[atoms] due-only selection; lookup unrestricted", Run: ruleC04_1},
@@ -175,6 +178,7 @@ func allPropsUnsorted() []*propInfo {
 				"C12.5 also: the scanned rows are not sorted or overwritten before the page token is taken; C17.4 (shared). C12.7 every lookup of snapshots selects by name / id / prefix only (the siblings agree on which snapshots exist). C15.5 (shared) a topic's snapshots, and only they, are removed with it. NOT decided: races under PostgreSQL isolation levels, histories, 'inherits no backlog' beyond C12.3.",
 			Assumptions: []string{k1Assumption, "SQLite evaluates LIKE case-insensitively, PostgreSQL case-sensitively (documented behaviour)"},
 			Rules: []ruleFn{
+				{ID: "C12.8", Doc: "[atoms] a resource is addressed by its whole name: every lookup narrowed by the name column compares it for equality", Run: ruleC12_8},
 				{ID: "C15.5", Doc: "(shared: a topic's snapshots are removed with it, and only they) [atoms] child tables of topics that no job prunes are emptied, unconditionally, when the topic is deleted", Run: ruleC15_5},
 				{ID: "C12.7", Doc: "[atoms] every lookup of snapshots selects by name / id / prefix only: the siblings agree on which snapshots exist", Run: ruleC12_7},
 				{ID: "C17.4", Doc: "[dep] (shared) a dead-letter topic is attached only from a lookup made for the request (live row), never from a cached edge", Run: ruleC17_4},
